@@ -163,15 +163,33 @@ pub open spec fn source_phase(s: St, go: bool, g: &GenericParamSet, source: Item
 }
 }
 //@ enum item_type/compare_op.rs ItemSource
+verus! {
+pub open spec fn source_generics(source: ItemSource) -> &Generics {
+    match source { ItemSource::Struct { item, fields } => &item.generics, ItemSource::Enum { item, variants } => &item.generics }
+}
+// the whole where-clause of a derived comparison impl: declared predicates, type level (helper, per-trait, shared), then variants / fields
+pub open spec fn cmp_expected(source: ItemSource, h: &HelperAttributes, e: &DeriveEntry, op: CompareOp) -> St {
+    let g = source_generics(source);
+    let s1 = entry_phase(level_phase(start(g), h, DeriveItemKind::CompareOp(op)), e);
+    source_phase(St { go: true, ..s1 }, s1.go, &gps_of(g), source, op)
+}
+}
 #[verus_verify]
 impl ItemSource<'_> {
 //@ fn item_type/compare_op.rs ItemSource::kind
+//@ end
+//@ fn item_type/compare_op.rs ItemSource::ident
+//@ end
+//@ fn item_type/compare_op.rs ItemSource::generics
+//@   spec r => ensures r == source_generics(*self)
 //@ end
 }
 #[verus_verify]
 impl<'a> VariantEntry<'a> {
     #[verifier::external_body]
     fn make_pat(&self, prefix: &str) -> TokenStream { unimplemented!() }
+    #[verifier::external_body]
+    fn make_pat_with_self_path(&self, prefix: &str, self_path: &Ident) -> TokenStream { unimplemented!() }
 }
 #[verus_verify]
 impl HelperAttributesForCompareOp {
@@ -188,12 +206,75 @@ impl HelperAttributesForCompareOp {
 //@   attr #[verus_verify]
 //@   spec r => ensures
 //@     | r is Err <==> !source_accept(source, CompareOp::Ord),
-//@     | r is Ok ==> same(final(wcb), source_phase(st(old(wcb), true), use_bounds, &old(wcb).gps, source, CompareOp::Ord)),
-//@     | final(wcb).gps == old(wcb).gps
+//@     | r is Ok ==> same(final(wcb), source_phase(st(old(wcb), true), use_bounds, &old(wcb).gps, source, CompareOp::Ord)) && final(wcb).gps == old(wcb).gps
 //@   rewrite R3
-//@   before |fields: &[FieldEntry], ## #[verus_spec(r => requires op is Ord, kind == DeriveItemKind::CompareOp(CompareOp::Ord), ensures r is Err <==> !all_accept(fields@, fields@.len() as int, CompareOp::Ord), r is Ok ==> same(final(wcb), cmp_fields_phase(st(old(wcb), true), use_bounds, &old(wcb).gps, fields@, fields@.len() as int, CompareOp::Ord)), final(wcb).gps == old(wcb).gps)]
+//@   before |fields: &[FieldEntry], ## #[verus_spec(r => ensures r is Err <==> !all_accept(fields@, fields@.len() as int, CompareOp::Ord), r is Ok ==> same(final(wcb), cmp_fields_phase(st(old(wcb), true), use_bounds, &old(wcb).gps, fields@, fields@.len() as int, CompareOp::Ord)), r is Ok ==> final(wcb).gps == old(wcb).gps)]
 //@   before for field in fields ## #[verus_spec(it => invariant it.seq().len() == fields@.len(), forall|i: int| 0 <= i < fields@.len() ==> *it.seq()[i] == fields@[i], 0 <= it.index@ <= fields@.len(), op is Ord, kind == DeriveItemKind::CompareOp(CompareOp::Ord), wcb.gps == old(wcb).gps, all_accept(fields@, it.index@, CompareOp::Ord), same(wcb, cmp_fields_phase(st(old(wcb), true), use_bounds, &old(wcb).gps, fields@, it.index@, CompareOp::Ord)))]
-//@   before let body = build_from_fields(&variant.fields ## proof! { assert(*variant == variants@[vi.index@ as int]); if !all_accept(variant.fields@, variant.fields@.len() as int, CompareOp::Ord) { lemma_not_all(variants@, vi.index@ as int, CompareOp::Ord); } }
-//@   before for variant in variants ## #[verus_spec(vi => invariant vi.seq().len() == variants@.len(), forall|i: int| 0 <= i < variants@.len() ==> *vi.seq()[i] == variants@[i], 0 <= vi.index@ <= variants@.len(), vi.index@ < variants@.len() ==> *vi.seq()[vi.index@ as int] == variants@[vi.index@ as int], op is Ord, kind == DeriveItemKind::CompareOp(CompareOp::Ord), wcb.gps == old(wcb).gps, all_variants_accept(variants@, vi.index@, CompareOp::Ord), same(wcb, cmp_variants_phase(st(old(wcb), true), use_bounds, &old(wcb).gps, variants@, vi.index@, CompareOp::Ord)))]
+//@   before let body = build_from_fields(&variant.fields ## proof! { if !all_accept(variant.fields@, variant.fields@.len() as int, CompareOp::Ord) { lemma_not_all(variants@, vi.index@ as int, CompareOp::Ord); } }
+//@   before for variant in variants ## #[verus_spec(vi => invariant vi.seq().len() == variants@.len(), forall|i: int| 0 <= i < variants@.len() ==> *vi.seq()[i] == variants@[i], 0 <= vi.index@ <= variants@.len(), source matches ItemSource::Enum { variants: v2, .. } && v2@ == variants@, kind == DeriveItemKind::CompareOp(CompareOp::Ord), wcb.gps == old(wcb).gps,
+//@     | forall|a: (&[FieldEntry], bool, &mut WhereClauseBuilder)| build_from_fields.requires(a),
+//@     | forall|a: (&[FieldEntry], bool, &mut WhereClauseBuilder), r: Result<TokenStream>| #[trigger] build_from_fields.ensures(a, r) ==> ((r is Err <==> !all_accept(a.0@, a.0@.len() as int, CompareOp::Ord)) && (r is Ok ==> same(final(a.2), cmp_fields_phase(st(a.2, true), a.1, &a.2.gps, a.0@, a.0@.len() as int, CompareOp::Ord)) && final(a.2).gps == a.2.gps)),
+//@     | all_variants_accept(variants@, vi.index@, CompareOp::Ord), same(wcb, cmp_variants_phase(st(old(wcb), true), use_bounds, &old(wcb).gps, variants@, vi.index@, CompareOp::Ord)))]
+//@ end
+//@ fn item_type/compare_op.rs build_partial_ord_body
+//@   attr #[verus_verify]
+//@   spec r => ensures
+//@     | r is Err <==> !source_accept(source, CompareOp::PartialOrd),
+//@     | r is Ok ==> same(final(wcb), source_phase(st(old(wcb), true), use_bounds, &old(wcb).gps, source, CompareOp::PartialOrd)) && final(wcb).gps == old(wcb).gps
+//@   rewrite R3
+//@   before |fields: &[FieldEntry], ## #[verus_spec(r => ensures r is Err <==> !all_accept(fields@, fields@.len() as int, CompareOp::PartialOrd), r is Ok ==> same(final(wcb), cmp_fields_phase(st(old(wcb), true), use_bounds, &old(wcb).gps, fields@, fields@.len() as int, CompareOp::PartialOrd)), r is Ok ==> final(wcb).gps == old(wcb).gps)]
+//@   before for field in fields ## #[verus_spec(it => invariant it.seq().len() == fields@.len(), forall|i: int| 0 <= i < fields@.len() ==> *it.seq()[i] == fields@[i], 0 <= it.index@ <= fields@.len(), op is PartialOrd, kind == DeriveItemKind::CompareOp(CompareOp::PartialOrd), wcb.gps == old(wcb).gps, all_accept(fields@, it.index@, CompareOp::PartialOrd), same(wcb, cmp_fields_phase(st(old(wcb), true), use_bounds, &old(wcb).gps, fields@, it.index@, CompareOp::PartialOrd)))]
+//@   before let body = build_from_fields(&variant.fields ## proof! { if !all_accept(variant.fields@, variant.fields@.len() as int, CompareOp::PartialOrd) { lemma_not_all(variants@, vi.index@ as int, CompareOp::PartialOrd); } }
+//@   before for variant in variants ## #[verus_spec(vi => invariant vi.seq().len() == variants@.len(), forall|i: int| 0 <= i < variants@.len() ==> *vi.seq()[i] == variants@[i], 0 <= vi.index@ <= variants@.len(), source matches ItemSource::Enum { variants: v2, .. } && v2@ == variants@, kind == DeriveItemKind::CompareOp(CompareOp::PartialOrd), wcb.gps == old(wcb).gps,
+//@     | forall|a: (&[FieldEntry], bool, &mut WhereClauseBuilder)| build_from_fields.requires(a),
+//@     | forall|a: (&[FieldEntry], bool, &mut WhereClauseBuilder), r: Result<TokenStream>| #[trigger] build_from_fields.ensures(a, r) ==> ((r is Err <==> !all_accept(a.0@, a.0@.len() as int, CompareOp::PartialOrd)) && (r is Ok ==> same(final(a.2), cmp_fields_phase(st(a.2, true), a.1, &a.2.gps, a.0@, a.0@.len() as int, CompareOp::PartialOrd)) && final(a.2).gps == a.2.gps)),
+//@     | all_variants_accept(variants@, vi.index@, CompareOp::PartialOrd), same(wcb, cmp_variants_phase(st(old(wcb), true), use_bounds, &old(wcb).gps, variants@, vi.index@, CompareOp::PartialOrd)))]
+//@ end
+//@ fn item_type/compare_op.rs build_partial_eq_body
+//@   attr #[verus_verify]
+//@   spec r => ensures
+//@     | r is Err <==> !source_accept(source, CompareOp::PartialEq),
+//@     | r is Ok ==> same(final(wcb), source_phase(st(old(wcb), true), use_bounds, &old(wcb).gps, source, CompareOp::PartialEq)) && final(wcb).gps == old(wcb).gps
+//@   rewrite R3
+//@   before |fields: &[FieldEntry], ## #[verus_spec(r => ensures r is Err <==> !all_accept(fields@, fields@.len() as int, CompareOp::PartialEq), r is Ok ==> same(final(wcb), cmp_fields_phase(st(old(wcb), true), use_bounds, &old(wcb).gps, fields@, fields@.len() as int, CompareOp::PartialEq)), r is Ok ==> final(wcb).gps == old(wcb).gps)]
+//@   before for field in fields ## #[verus_spec(it => invariant it.seq().len() == fields@.len(), forall|i: int| 0 <= i < fields@.len() ==> *it.seq()[i] == fields@[i], 0 <= it.index@ <= fields@.len(), op is PartialEq, kind == DeriveItemKind::CompareOp(CompareOp::PartialEq), wcb.gps == old(wcb).gps, all_accept(fields@, it.index@, CompareOp::PartialEq), same(wcb, cmp_fields_phase(st(old(wcb), true), use_bounds, &old(wcb).gps, fields@, it.index@, CompareOp::PartialEq)))]
+//@   before let body = build_from_fields(&variant.fields ## proof! { if !all_accept(variant.fields@, variant.fields@.len() as int, CompareOp::PartialEq) { lemma_not_all(variants@, vi.index@ as int, CompareOp::PartialEq); } }
+//@   before for variant in variants ## #[verus_spec(vi => invariant vi.seq().len() == variants@.len(), forall|i: int| 0 <= i < variants@.len() ==> *vi.seq()[i] == variants@[i], 0 <= vi.index@ <= variants@.len(), source matches ItemSource::Enum { variants: v2, .. } && v2@ == variants@, kind == DeriveItemKind::CompareOp(CompareOp::PartialEq), wcb.gps == old(wcb).gps,
+//@     | forall|a: (&[FieldEntry], bool, &mut WhereClauseBuilder)| build_from_fields.requires(a),
+//@     | forall|a: (&[FieldEntry], bool, &mut WhereClauseBuilder), r: Result<TokenStream>| #[trigger] build_from_fields.ensures(a, r) ==> ((r is Err <==> !all_accept(a.0@, a.0@.len() as int, CompareOp::PartialEq)) && (r is Ok ==> same(final(a.2), cmp_fields_phase(st(a.2, true), a.1, &a.2.gps, a.0@, a.0@.len() as int, CompareOp::PartialEq)) && final(a.2).gps == a.2.gps)),
+//@     | all_variants_accept(variants@, vi.index@, CompareOp::PartialEq), same(wcb, cmp_variants_phase(st(old(wcb), true), use_bounds, &old(wcb).gps, variants@, vi.index@, CompareOp::PartialEq)))]
+//@ end
+//@ fn item_type/compare_op.rs build_eq_body
+//@   attr #[verus_verify]
+//@   spec r => ensures
+//@     | r is Err <==> !source_accept(source, CompareOp::Eq),
+//@     | r is Ok ==> same(final(wcb), source_phase(st(old(wcb), true), use_bounds, &old(wcb).gps, source, CompareOp::Eq)) && final(wcb).gps == old(wcb).gps
+//@   rewrite R3
+//@   before |fields: &[FieldEntry], ## #[verus_spec(r => ensures r is Err <==> !all_accept(fields@, fields@.len() as int, CompareOp::Eq), r is Ok ==> same(final(wcb), cmp_fields_phase(st(old(wcb), true), use_bounds, &old(wcb).gps, fields@, fields@.len() as int, CompareOp::Eq)), r is Ok ==> final(wcb).gps == old(wcb).gps)]
+//@   before for field in fields ## #[verus_spec(it => invariant it.seq().len() == fields@.len(), forall|i: int| 0 <= i < fields@.len() ==> *it.seq()[i] == fields@[i], 0 <= it.index@ <= fields@.len(), op is Eq, kind == DeriveItemKind::CompareOp(CompareOp::Eq), wcb.gps == old(wcb).gps, all_accept(fields@, it.index@, CompareOp::Eq), same(wcb, cmp_fields_phase(st(old(wcb), true), use_bounds, &old(wcb).gps, fields@, it.index@, CompareOp::Eq)))]
+//@   before let body = build_from_fields(&variant.fields ## proof! { if !all_accept(variant.fields@, variant.fields@.len() as int, CompareOp::Eq) { lemma_not_all(variants@, vi.index@ as int, CompareOp::Eq); } }
+//@   before for variant in variants ## #[verus_spec(vi => invariant vi.seq().len() == variants@.len(), forall|i: int| 0 <= i < variants@.len() ==> *vi.seq()[i] == variants@[i], 0 <= vi.index@ <= variants@.len(), source matches ItemSource::Enum { variants: v2, .. } && v2@ == variants@, kind == DeriveItemKind::CompareOp(CompareOp::Eq), wcb.gps == old(wcb).gps,
+//@     | forall|a: (&[FieldEntry], bool, &mut WhereClauseBuilder)| build_from_fields.requires(a),
+//@     | forall|a: (&[FieldEntry], bool, &mut WhereClauseBuilder), r: Result<TokenStream>| #[trigger] build_from_fields.ensures(a, r) ==> ((r is Err <==> !all_accept(a.0@, a.0@.len() as int, CompareOp::Eq)) && (r is Ok ==> same(final(a.2), cmp_fields_phase(st(a.2, true), a.1, &a.2.gps, a.0@, a.0@.len() as int, CompareOp::Eq)) && final(a.2).gps == a.2.gps)),
+//@     | all_variants_accept(variants@, vi.index@, CompareOp::Eq), same(wcb, cmp_variants_phase(st(old(wcb), true), use_bounds, &old(wcb).gps, variants@, vi.index@, CompareOp::Eq)))]
+//@ end
+//@ fn item_type/compare_op.rs build_hash_body
+//@   attr #[verus_verify]
+//@   spec r => ensures
+//@     | r is Err <==> !source_accept(source, CompareOp::Hash),
+//@     | r is Ok ==> same(final(wcb), source_phase(st(old(wcb), true), use_bounds, &old(wcb).gps, source, CompareOp::Hash)) && final(wcb).gps == old(wcb).gps
+//@   rewrite R3
+//@   before |fields: &[FieldEntry], ## #[verus_spec(r => ensures r is Err <==> !all_accept(fields@, fields@.len() as int, CompareOp::Hash), r is Ok ==> same(final(wcb), cmp_fields_phase(st(old(wcb), true), use_bounds, &old(wcb).gps, fields@, fields@.len() as int, CompareOp::Hash)), r is Ok ==> final(wcb).gps == old(wcb).gps)]
+//@   before for field in fields ## #[verus_spec(it => invariant it.seq().len() == fields@.len(), forall|i: int| 0 <= i < fields@.len() ==> *it.seq()[i] == fields@[i], 0 <= it.index@ <= fields@.len(), op is Hash, kind == DeriveItemKind::CompareOp(CompareOp::Hash), wcb.gps == old(wcb).gps, all_accept(fields@, it.index@, CompareOp::Hash), same(wcb, cmp_fields_phase(st(old(wcb), true), use_bounds, &old(wcb).gps, fields@, it.index@, CompareOp::Hash)))]
+//@   before let body = build_from_fields(&variant.fields ## proof! { if !all_accept(variant.fields@, variant.fields@.len() as int, CompareOp::Hash) { lemma_not_all(variants@, vi.index@ as int, CompareOp::Hash); } }
+//@   before for variant in variants ## #[verus_spec(vi => invariant vi.seq().len() == variants@.len(), forall|i: int| 0 <= i < variants@.len() ==> *vi.seq()[i] == variants@[i], 0 <= vi.index@ <= variants@.len(), source matches ItemSource::Enum { variants: v2, .. } && v2@ == variants@, kind == DeriveItemKind::CompareOp(CompareOp::Hash), wcb.gps == old(wcb).gps,
+//@     | forall|a: (&[FieldEntry], bool, &mut WhereClauseBuilder)| build_from_fields.requires(a),
+//@     | forall|a: (&[FieldEntry], bool, &mut WhereClauseBuilder), r: Result<TokenStream>| #[trigger] build_from_fields.ensures(a, r) ==> ((r is Err <==> !all_accept(a.0@, a.0@.len() as int, CompareOp::Hash)) && (r is Ok ==> same(final(a.2), cmp_fields_phase(st(a.2, true), a.1, &a.2.gps, a.0@, a.0@.len() as int, CompareOp::Hash)) && final(a.2).gps == a.2.gps)),
+//@     | all_variants_accept(variants@, vi.index@, CompareOp::Hash), same(wcb, cmp_variants_phase(st(old(wcb), true), use_bounds, &old(wcb).gps, variants@, vi.index@, CompareOp::Hash)))]
+//@ end
+//@ fn item_type/compare_op.rs build_compare_op
+//@   attr #[verus_verify]
+//@   spec r => ensures r is Err <==> !source_accept(source, op)
+//@   before let wheres = wcb.build( ## proof! { assert(same(&wcb, cmp_expected(source, hattrs, e, op))); }
 //@ end
 fn main() {}
